@@ -18,10 +18,10 @@ RULE = ('cost = number of Python LINE events executed inside pytoniq_core during
         'construction, to_boc (6 option sets), from_boc, order, copy, begin_parse/to_cell, to_builder/end_cell, hash/eq/representation hash, '
         'walking with load_ref, check_proof: budget 60*(n+e+1)^2+5000 steps for n cells / e references; (b) BoC parser on adversarial input: '
         'for each base BoC every header count/size/offset field set to {0,1,2,255,256,65535,2^24,2^31,2^32-1} (masked to the field width), '
-        'every value of the flags and offset-width bytes, every descriptor byte of every cell set to all 256 values, every reference index to '
+        'every value of the flags and offset-width bytes, every PAIR of header fields over {0,1,255,2^24-1,2^32-1,2^56-1} also truncated right after the header, every descriptor byte of every cell set to all 256 values, every reference index to '
         '{self, 0, n-1, n, max}; CRC re-computed so the mutation is reached: budget 400*(len+16) steps and never more than 300000; (c) TL parser: '
         'for every constructor with a vector / bytes / string field a valid reference encoding with every 4-byte word replaced by '
-        '{0,1,len,2^31-1,2^31,2^32-1} and every length byte by {0xFE,0xFF,253}, plus nested-bytes towers: same budget; (d) dictionary '
+        '{0,1,len,2^31-1,2^31,2^32-1} and every length byte by {0xFE,0xFF,253}, plus nested-bytes towers (single objects and sequences of objects per level, depth 1..30): same budget; (d) dictionary '
         'parser on every label kind with every claimed length up to the field maximum (incl. lengths beyond the key and beyond the cell), '
         'unterminated unary lengths, 1023-bit keys: same budget. '
         'non-trivial = the DAG shares at least one cell / the mutated field differs from the original; states = distinct inputs; '
@@ -48,7 +48,7 @@ def BOUNDS(tier):
 
 def REQUIRED_COVER(tier):
     return {'dag:shape', 'dag:family:kchain2', 'dag:family:kchain4', 'dag:family:ladder', 'dag:family:diamond', 'dag:family:dense',
-            'boc:header', 'boc:descriptor', 'boc:refidx', 'dict:label', 'tl:word', 'tl:tower'}
+            'boc:header', 'boc:header2', 'boc:descriptor', 'boc:refidx', 'dict:label', 'tl:word', 'tl:tower'}
 
 
 FIELD_VALUES = [0, 1, 2, 255, 256, 65535, 1 << 24, 1 << 31, (1 << 32) - 1]
@@ -272,6 +272,23 @@ def boc_mutations(data, layout):
             yield 'boc:header', f'flags=0x{v:02x}', data[:4] + bytes([v]) + data[5:]
         if v != data[5]:
             yield 'boc:header', f'offset_bytes={v}', data[:5] + bytes([v]) + data[6:]
+    # pairs of header fields (2 deviations): a guard computed from one field while the loop runs over another
+    hdr = [('flags', 4, 1), ('offset_bytes', 5, 1)] + [f for f in fields if not f[0].startswith('index[')]
+    hdr_end = cells_start if not layout['idx'] else cells_start - n * off
+    pair_values = [0, 1, 255, (1 << 24) - 1, (1 << 32) - 1, (1 << 56) - 1]
+    for (n1, p1, w1), (n2, p2, w2) in itertools.combinations(hdr, 2):
+        for v1 in pair_values:
+            for v2 in pair_values:
+                v1m, v2m = v1 & ((1 << (8 * w1)) - 1), v2 & ((1 << (8 * w2)) - 1)
+                if n1 == 'flags':
+                    v1m = (data[4] & 0xF8) | (v1m & 7)        # only the size field of the flags byte (0..7)
+                m = bytearray(data)
+                m[p1:p1 + w1] = v1m.to_bytes(w1, 'big')
+                m[p2:p2 + w2] = v2m.to_bytes(w2, 'big')
+                m = bytes(m)
+                if m != data:
+                    yield 'boc:header2', f'{n1}={v1m},{n2}={v2m}', m
+                    yield 'boc:header2', f'{n1}={v1m},{n2}={v2m},truncated after the header', m[:hdr_end]
     # per-cell descriptor bytes and reference indexes (walk the cells with the reference layout)
     order = RC.topo(layout['roots'])
     q = cells_start
